@@ -354,11 +354,13 @@ pub fn gen_c19(rng: &mut Rng, thorough: bool) -> History {
                 let fault = if !faults {
                     IoFault::None
                 } else {
-                    match rng.below(8) {
+                    match rng.below(10) {
                         0 => IoFault::None,
                         1 => IoFault::DevFull,
                         2 => IoFault::NoDir,
                         3 => IoFault::IsDir,
+                        4 => IoFault::Overwrite,
+                        5 => IoFault::DevNull,
                         _ => IoFault::FileLimit(rng.next_u64() >> 1),
                     }
                 };
@@ -410,6 +412,11 @@ fn check_png_file(file: &Option<Vec<u8>>, px: &[u32], w: i32, h: i32) -> Result<
         None => return Err("no file was written".into()),
     };
     let (pw, ph, data) = decode_png(bytes).map_err(|e| format!("the file ({} bytes) does not decode: {}", bytes.len(), e))?;
+    // a PNG stream ends with the IEND chunk: nothing may follow it (a decoder would not notice)
+    const IEND: [u8; 12] = [0, 0, 0, 0, 0x49, 0x45, 0x4e, 0x44, 0xae, 0x42, 0x60, 0x82];
+    if bytes.len() < 12 || bytes[bytes.len() - 12..] != IEND {
+        return Err(format!("the file ({} bytes) does not end with the IEND chunk (stale or extra bytes after the image)", bytes.len()));
+    }
     if pw as i32 != w || ph as i32 != h {
         return Err(format!("image is {}x{}, surface is {}x{}", pw, ph, w, h));
     }
@@ -476,7 +483,7 @@ pub fn run_c19(h: &History, io_dir: &str, st: &mut Stats) -> Outcome {
         }
         let estep = Step { surf: 0, op: op.clone(), nop: 0 };
         if let Op::WritePng { fault } = &op {
-            let fault_fires = !matches!(fault, IoFault::None);
+            let fault_fires = !matches!(fault, IoFault::None | IoFault::Overwrite);
             if let Some(o) = c19_png_step(&mut p, &estep, i, budget, &model, w, hh, fault_fires, st) {
                 return o;
             }
@@ -595,6 +602,8 @@ fn c19_png_step(p: &mut World, step: &Step, i: usize, budget: u64, model: &[u32]
         IoFault::DevFull => st.count("io_fault.enospc"),
         IoFault::NoDir => st.count("io_fault.enoent"),
         IoFault::IsDir => st.count("io_fault.eisdir"),
+        IoFault::Overwrite => st.count("io_env.longer_file_already_there"),
+        IoFault::DevNull => st.count("io_env.dev_null"),
     }
     if out.returned_ok {
         st.count("io.returned_ok");
@@ -603,6 +612,13 @@ fn c19_png_step(p: &mut World, step: &Step, i: usize, budget: u64, model: &[u32]
     }
     if w == 0 || h == 0 {
         // a surface with a zero dimension cannot be represented as a PNG: only "no panic" is required
+        return None;
+    }
+    if let IoFault::DevNull = fault {
+        // every byte is accepted: the call has to report success (there is nothing to read back)
+        if !out.returned_ok {
+            return Some(viol("c19.png-export", i, format!("write_png to /dev/null, which accepts every byte, failed: {}", out.err)));
+        }
         return None;
     }
     if !fault_injected {
